@@ -121,7 +121,7 @@ where
                     // harness's, or one in another property's code do not.
                     let msg = crate::sim::last_panic_anywhere();
                     let loc = msg.rsplit(" at ").next().unwrap_or("").to_string();
-                    if loc.starts_with('/') && W::anchored_files().iter().any(|f| loc.contains(f)) {
+                    if loc.starts_with('/') && !loc.contains("/.cargo/") && !loc.contains("/registry/") && W::anchored_files().iter().any(|f| loc.contains(f)) {
                         J::obj().with("class", J::str("panic/concurrent/-")).with("step", J::u(0)).with("detail", J::Str(format!("crate code panicked under a concurrent schedule: {}", msg)))
                     } else {
                         J::Null
@@ -145,8 +145,10 @@ where
     match r {
         Ok(()) => (0, None),
         Err(_) => {
+            // only a recorded model mismatch is a reproduction; a schedule that does not fit the
+            // current tree makes shuttle panic too, and that is "no violation"
             let v = LAST_VIOLATION.lock().unwrap().clone().and_then(|t| crate::json::parse(&t).ok());
-            (1, v)
+            (if v.is_some() { 1 } else { 0 }, v)
         }
     }
 }
